@@ -14,6 +14,7 @@ import CqlVerif.Drv.Lex
 import CqlVerif.Drv.Idem
 import CqlVerif.Drv.Handled
 import CqlVerif.Drv.Route
+import CqlVerif.Drv.Codec
 open CqlVerif.Drv
 
 def dispatch (stream op real : String) : Verdict :=
@@ -34,6 +35,7 @@ def dispatch (stream op real : String) : Verdict :=
   | "idem" => IdemStream.handle op real
   | "handled" => HandledStream.handle op real
   | "route" => RouteStream.handle op real
+  | "codec" => CodecStream.handle op real
   | _ => { kind := "diff", detail := s!"unknown stream {stream}" }
 
 partial def loop (h : IO.FS.Stream) (out : IO.FS.Stream) : IO Unit := do
